@@ -172,6 +172,9 @@ func (ex *Exec) intrinsic(fr *Frame, fn *ssa.Function, args []Value, env []Value
 		ex.nondets = append(ex.nondets, NondetRec{Name: "rand.Intn", Var: vn, Kind: "rand"})
 		ex.assumes = append(ex.assumes, Or(Not(g), Lt(v, n)))
 		return v, FF, true
+	case "strings.Compare", "internal/bytealg.CompareString":
+		a, b := args[0].(*T), args[1].(*T)
+		return Ite(Lt(a, b), I(-1), Ite(Eq(a, b), I(0), I(1))), FF, true
 	case "strconv.Itoa":
 		return StrFromInt(args[0].(*T)), FF, true
 	case "math.Sqrt":
